@@ -90,20 +90,34 @@ type verifC12Env struct {
 
 func verifC12NewEnv(t *testing.T) *verifC12Env {
 	t.Helper()
-	// The upstream testServerConfig with two changes: the CSR rate limits are off, and every listener binds to port 0
-	// instead of a port from sdk/freeport. freeport reserves one of only 15 machine-wide port blocks per PROCESS and
-	// panics when none is free — which happens as soon as a dozen test binaries that start servers run side by side
-	// (16 shards of this check, other checks, the upstream suite). Nothing here needs a predictable port.
-	dir, config := verifC12ServerConfig(t)
-	config.CAConfig.Config["CSRMaxPerSecond"] = 0
-	config.CAConfig.Config["CSRMaxConcurrent"] = 0
-	config.ACLResolverSettings.ACLsEnabled = config.ACLsEnabled
-	config.ACLResolverSettings.NodeName = config.NodeName
-	config.ACLResolverSettings.Datacenter = config.Datacenter
-	config.ACLResolverSettings.EnterpriseMeta = *config.AgentEnterpriseMeta()
-	srv, err := newServerWithDeps(t, config, newDefaultDeps(t, config))
-	if err != nil {
-		t.Fatalf("harness: cannot start the test server: %v", err)
+	// The upstream testServerConfig with two changes: the CSR rate limits are off, and the ports do not come from
+	// sdk/freeport. freeport reserves one of only 15 machine-wide port blocks per PROCESS and panics when none is free
+	// — which happens as soon as a dozen test binaries that start servers run side by side (16 shards of this check,
+	// other checks, the upstream suite). The RPC listener binds to port 0; Serf needs real numbers (the server refuses
+	// a dynamic WAN port), so two ports that are free for TCP and UDP right now are probed, and the start is retried.
+	var (
+		dir string
+		srv *Server
+	)
+	for attempt := 1; ; attempt++ {
+		var config *Config
+		dir, config = verifC12ServerConfig(t)
+		config.CAConfig.Config["CSRMaxPerSecond"] = 0
+		config.CAConfig.Config["CSRMaxConcurrent"] = 0
+		config.ACLResolverSettings.ACLsEnabled = config.ACLsEnabled
+		config.ACLResolverSettings.NodeName = config.NodeName
+		config.ACLResolverSettings.Datacenter = config.Datacenter
+		config.ACLResolverSettings.EnterpriseMeta = *config.AgentEnterpriseMeta()
+		var err error
+		srv, err = newServerWithDeps(t, config, newDefaultDeps(t, config))
+		if err == nil {
+			break
+		}
+		os.RemoveAll(dir)
+		if attempt == 10 {
+			t.Fatalf("harness: cannot start the test server: %v", err)
+		}
+		time.Sleep(200 * time.Millisecond) // most likely one of the probed ports was taken in between
 	}
 	t.Cleanup(func() {
 		srv.Shutdown()
@@ -137,6 +151,26 @@ func verifC12NewEnv(t *testing.T) *verifC12Env {
 	return env
 }
 
+// verifC12ProbePort returns a port that is free on 127.0.0.1 for TCP and UDP at the moment of the call.
+func verifC12ProbePort(t *testing.T) int {
+	for i := 0; i < 200; i++ {
+		l, err := net.ListenTCP("tcp", &net.TCPAddr{IP: net.IPv4(127, 0, 0, 1)})
+		if err != nil {
+			continue
+		}
+		port := l.Addr().(*net.TCPAddr).Port
+		u, err := net.ListenUDP("udp", &net.UDPAddr{IP: net.IPv4(127, 0, 0, 1), Port: port})
+		l.Close()
+		if err != nil {
+			continue
+		}
+		u.Close()
+		return port
+	}
+	t.Fatalf("harness: no free port found")
+	return 0
+}
+
 // verifC12ServerConfig is server_test.go's testServerConfig with all ports 0 (see verifC12NewEnv).
 func verifC12ServerConfig(t *testing.T) (string, *Config) {
 	dir := testutil.TempDir(t, "consul")
@@ -153,9 +187,10 @@ func verifC12ServerConfig(t *testing.T) (string, *Config) {
 	}
 	config.NodeID = types.NodeID(nodeID)
 	for _, mc := range []*memberlist.Config{config.SerfLANConfig.MemberlistConfig, config.SerfWANConfig.MemberlistConfig} {
+		port := verifC12ProbePort(t)
 		mc.BindAddr = "127.0.0.1"
-		mc.BindPort = 0
-		mc.AdvertisePort = 0
+		mc.BindPort = port
+		mc.AdvertisePort = port
 		mc.SuspicionMult = 2
 		mc.ProbeTimeout = 50 * time.Millisecond
 		mc.ProbeInterval = 100 * time.Millisecond
